@@ -42,6 +42,8 @@ type e2e struct {
 	ctl            []*ctlState
 	disk           int
 	stopFiredAt    time.Duration
+	lqMu           sync.Mutex
+	lqCalls        map[string]int
 	stopFired      bool
 	stopReturned   bool
 	started        bool
@@ -511,6 +513,7 @@ func RunE2E(t *testing.T, in *RunInput) {
 			installHQ(r)
 		}
 		verifhook.StatfsHandler = r.statfs
+		verifhook.FaultHandler = r.lqFault
 		for _, a := range sc.Ctl {
 			r.ctl = append(r.ctl, &ctlState{a: a})
 		}
@@ -536,6 +539,34 @@ func RunE2E(t *testing.T, in *RunInput) {
 		r.writeRecord()
 		os.Exit(0)
 	})
+}
+
+// lqFault decides the cooperative fault points of the local queue's database operations.
+func (r *e2e) lqFault(point string) error {
+	op := strings.TrimPrefix(point, "lq.db.")
+	plan := r.sc.LQFaults[op]
+	if len(plan) == 0 {
+		return nil
+	}
+	r.lqMu.Lock()
+	if r.lqCalls == nil {
+		r.lqCalls = map[string]int{}
+	}
+	i := r.lqCalls[op]
+	r.lqCalls[op]++
+	r.lqMu.Unlock()
+	f := ""
+	if i < len(plan) {
+		f = plan[i]
+	} else if strings.HasSuffix(plan[len(plan)-1], "*") {
+		f = plan[len(plan)-1]
+	}
+	if f == "" {
+		return nil
+	}
+	r.k.Fault("lq-" + op + "-error")
+	r.k.Handle("lq.db.fault", false, []any{op, i})
+	return fmt.Errorf("simulated database error (%s call #%d): disk I/O error", op, i)
 }
 
 func (r *e2e) statfs(st *syscall.Statfs_t) {
